@@ -50,6 +50,44 @@ def adopt(wt, k, name):
     meta["origin"] = "independent sub-agent, scratch worktree %s (given only the property text)" % wt
     json.dump(meta, open(os.path.join(t, "meta.json"), "w"), indent=1)
 
+def snap_setup(lane):
+    """A private snapshot of /verif (as it is now) and a clone of /repo for detection lane `lane`."""
+    base = "/tmp/snap%s" % lane
+    sh("mkdir -p %s && rsync -a --delete --exclude work --exclude replays --exclude .git %s/ %s/verif/" % (base, ROOT, base))
+    if not os.path.isdir(base + "/repo/.git"):
+        sh("git clone -q /repo %s/repo" % base)
+    sh("git fetch -q origin && git checkout -q --detach origin/main && git checkout -- . && git clean -fdq", cwd=base + "/repo")
+    sh("sed -i 's#path = \"/repo\"#path = \"%s/repo\"#' %s/verif/harness/Cargo.toml" % (base, base))
+    return base
+
+def detect_snap(lane, name, checks):
+    """Like detect, but in the lane's snapshot (scratch clone of the repository), so that
+    work in /verif and /repo is not disturbed.  Results are recorded in /verif/seeded/<name>/meta.json."""
+    base = "/tmp/snap%s" % lane
+    t = os.path.join(SEEDED, name)
+    meta = json.load(open(os.path.join(t, "meta.json")))
+    repo = base + "/repo"
+    sh("git checkout -- . && git clean -fdq", cwd=repo)
+    rc, out = sh("git apply %s/patch.diff" % t, cwd=repo)
+    if rc != 0:
+        print("patch does not apply:", out); return 2
+    results = {}
+    try:
+        for c in checks:
+            t0 = time.time()
+            rc, out = sh("./check.py %s --tier quick" % c, cwd=base + "/verif", timeout=3000)
+            lines = [l for l in out.splitlines() if l.startswith("VIOLATION") or l.startswith("OK ") or l.startswith("TOOL-ERROR") or l.startswith("  violation") or l.startswith("DRIFT") or l.startswith("KNOWN")]
+            results[c] = {"exit": rc, "wall_s": round(time.time() - t0, 1), "lines": [l.replace(base, "") for l in lines[:6]],
+                          "how": "scratch clone of the repository with the patch applied, checks from a snapshot of /verif"}
+            print(name, c, "exit", rc, [l[:150] for l in lines[:3]], flush=True)
+    finally:
+        sh("git checkout -- . && git clean -fdq", cwd=repo)
+    meta = json.load(open(os.path.join(t, "meta.json")))
+    meta.setdefault("detection", {}).update(results)
+    meta["detected_by"] = sorted(c for c, r in meta["detection"].items() if r["exit"] == 1)
+    json.dump(meta, open(os.path.join(t, "meta.json"), "w"), indent=1)
+    return 0
+
 def detect(name, checks):
     t = os.path.join(SEEDED, name)
     meta = json.load(open(os.path.join(t, "meta.json")))
@@ -80,5 +118,9 @@ if __name__ == "__main__":
         print(json.dumps(verify(sys.argv[2], int(sys.argv[3]))))
     elif cmd == "adopt":
         adopt(sys.argv[2], int(sys.argv[3]), sys.argv[4])
+    elif cmd == "snap":
+        print(snap_setup(sys.argv[2]))
+    elif cmd == "detect-snap":
+        sys.exit(detect_snap(sys.argv[2], sys.argv[3], sys.argv[4:]))
     elif cmd == "detect":
         sys.exit(detect(sys.argv[2], sys.argv[3:]))
